@@ -7,7 +7,7 @@ import random
 
 DEV_DEFAULTS = dict(ups=[], cyc=0, cap=-1, delay=0, budget=-1, pval=0, bsrc=-1, bsize=0, req={}, pred='all',
                     vadd=0, qset=0, qinc=False, cycmod=0, offmod=0, foff=0, late=False,
-                    wodur=0, wocap=0, wocost=0)
+                    wodur=0, wocap=0, wocost=0, gin=0, gout=0, vups=[], members=[], inputs=[], outputs=[])
 
 
 def norm(cfg):
@@ -21,7 +21,12 @@ def norm(cfg):
         nd['ups'] = list(nd['ups'])
         nd['req'] = dict(nd['req'] or {})
         nd['late'] = any(u > nd['id'] for u in nd['ups'])
+        for f in ('vups', 'members', 'inputs', 'outputs'):
+            nd[f] = list(nd[f])
         devs.append(nd)
+    for nd in devs:          # the group input pseudo-device notifies the upstreams of all paths of its group
+        if nd['kind'] == 'ginput':
+            nd['vups'] = [u for x in devs if x['kind'] == 'gpath' and x['gin'] == nd['id'] for u in x['ups']]
     out['devs'] = devs
     out['pools'] = dict(cfg.get('pools') or {})
     sc = []
@@ -450,6 +455,82 @@ def gen_gates(rng, count=60):
     return out
 
 
+def group_block(devs, members, inputs=None, outputs=None):
+    """Appends the input / output pseudo-devices of a group over existing member devices; returns (gin, gout).
+    The input devices must have been created with ups=[] (the group connects them)."""
+    inputs = sorted(inputs or members[:1])
+    outputs = sorted(outputs or members[-1:])
+    gin = len(devs) + 1
+    for m in inputs:
+        devs[m - 1]['ups'] = [gin]
+    devs.append(dev('ginput', [], members=list(members), inputs=inputs, outputs=outputs))
+    devs.append(dev('goutput', outputs))
+    return gin, gin + 1
+
+
+def gen_groups(rng, count=40):
+    """shared-machine groups: two lines sharing a group, re-entrant flow, a two-machine group, a nested group"""
+    out = []
+    while len(out) < count:
+        shape = rng.choice(['shared', 'shared', 'reentrant', 'two-machine', 'nested'])
+        devs = []
+        script = []
+        if shape in ('shared', 'two-machine'):
+            devs.append(src(rng.choice([1, 2, 3]), rng.choice([3, 5, -1]), pval=1))
+            devs.append(src(rng.choice([1, 2, 4]), rng.choice([3, 5, -1]), pval=2))
+            if shape == 'shared':
+                devs.append(dev('processor', [], cyc=rng.choice([1, 2, 3])))
+                members = [3]
+            else:
+                devs.append(dev('processor', [], cyc=rng.choice([1, 2])))
+                devs.append(dev('buffer', [3], cap=rng.choice([1, 2]), delay=rng.choice([0, 1])))
+                devs.append(dev('processor', [4], cyc=rng.choice([1, 3])))
+                members = [3, 4, 5]
+            gin, gout = group_block(devs, members)
+            devs.append(dev('gpath', [1], gin=gin, gout=gout))
+            p1 = len(devs)
+            devs.append(dev('gpath', [2], gin=gin, gout=gout))
+            p2 = len(devs)
+            devs.append(dev('sink', [p1], cyc=rng.choice([0, 0, 3])))
+            devs.append(dev(rng.choice(['sink', 'sink', 'handler']), [p2], cyc=rng.choice([0, 2, 5])))
+            if devs[-1]['kind'] == 'handler':
+                devs.append(dev('sink', [len(devs)], cyc=0))
+            if rng.random() < 0.4:
+                t = rng.choice([2, 4])
+                script = [dict(t=t, call='block', dev=rng.choice([p1, p2])), dict(t=t + rng.choice([3, 6]), call='unblock', dev=p1),
+                          dict(t=t + 7, call='unblock', dev=p2)]
+        elif shape == 'reentrant':
+            devs.append(src(rng.choice([2, 3, 4]), rng.choice([2, 3, 4]), pval=1))
+            devs.append(dev('processor', [], cyc=rng.choice([1, 2])))
+            gin, gout = group_block(devs, [2])
+            devs.append(dev('gpath', [1], gin=gin, gout=gout))
+            p1 = len(devs)
+            devs.append(dev(rng.choice(['handler', 'buffer']), [p1], cyc=rng.choice([1, 2]), cap=rng.choice([1, 2]), delay=1))
+            devs.append(dev('gpath', [len(devs)], gin=gin, gout=gout))
+            devs.append(dev('sink', [len(devs)], cyc=0))
+        else:
+            devs.append(src(rng.choice([1, 2, 3]), rng.choice([3, 5]), pval=1))
+            devs.append(src(rng.choice([2, 3]), rng.choice([2, 4]), pval=1))
+            devs.append(dev('processor', [], cyc=rng.choice([1, 2])))            # 3: inner machine
+            igin, igout = group_block(devs, [3])                                  # 4, 5
+            devs.append(dev('handler', [], cyc=rng.choice([0, 1])))               # 6: outer group's first device
+            devs.append(dev('gpath', [6], gin=igin, gout=igout))                  # 7: inner path, member of the outer group
+            ogin, ogout = group_block(devs, [6, 7], inputs=[6], outputs=[7])      # 8, 9
+            devs.append(dev('gpath', [1], gin=ogin, gout=ogout))                  # 10
+            devs.append(dev('gpath', [2], gin=ogin, gout=ogout))                  # 11
+            devs.append(dev('sink', [10], cyc=0))
+            devs.append(dev('sink', [11], cyc=rng.choice([0, 2])))
+        if rng.random() < 0.35:
+            procs = [i + 1 for i, d in enumerate(devs) if d['kind'] == 'processor']
+            t = rng.choice([3, 5])
+            script += [dict(t=t, call=rng.choice(['fail', 'shutdown']), dev=rng.choice(procs), arg=0),
+                       dict(t=t + rng.choice([2, 4]), call='restore', dev=procs[0])]
+        cfg = norm(dict(devs=devs, script=script, horizon=rng.choice([16, 24, 32])))
+        cfg['family'] = 'groups'
+        out.append(cfg)
+    return out
+
+
 def quick_family(seed, scale=1):
     """The configurations of the quick tier (a few hundred)."""
     rng = random.Random(seed * 7919 + 13)
@@ -467,6 +548,7 @@ def quick_family(seed, scale=1):
     out += gen_targeted(rng, 120 * scale)
     out += gen_batch(rng, 90 * scale)
     out += gen_gates(rng, 70 * scale)
+    out += gen_groups(rng, 60 * scale)
     out += [add_faults(rng, c, rng.choice([1, 2, 3])) for c in gen_gates(rng, 40 * scale) + gen_batch(rng, 40 * scale)]
     # split runs: a third of the configurations is also run in two or three consecutive runs
     for c in list(out):
